@@ -51,7 +51,9 @@ class QuadratureRule:
             This identifier is used to provide unique names to tables and symbols
             in generated code.
         """
-        return self.hash_obj.hexdigest()[-3:]
+        # Three hex digits collide for rules that can meet in one kernel (e.g. the default
+        # triangle rules of degree 15 and 26), giving two tables the same name
+        return self.hash_obj.hexdigest()[-8:]
 
 
 def create_quadrature_points_and_weights(
